@@ -28,7 +28,8 @@ Print Assumptions C11_identity_from_connection_with_notify.
 
 (* unauth_refused: on a connection that has proven no identity (unknown id, fresh, handshake pending, or the closed
    connection of a client) NO command of the 256 x 2 changes the world, discloses an object or writes a packet to another
-   client.  World invariant: client id 0 has no control connection and owns no HTTP domain. *)
+   client.  World invariant (wf_world): client id 0 has no control connection, owns no HTTP domain, and no
+   registered connection is bound to it. *)
 Theorem C11_unauth_refused :
   forall (w : world) (k : connkind) (cl : claim) (c : cmd),
   wf_world w -> conn_identity w k = 0 ->
@@ -48,7 +49,7 @@ Print Assumptions C11_unauth_refused_with_notify.
 (* which connection classes prove nothing *)
 Theorem C11_unauthenticated_classes :
   forall w, conn_identity w KUnknown = 0 /\ conn_identity w KFresh = 0 /\ conn_identity w KPending = 0
-  /\ (forall c, ~ In c (w_online w) -> conn_identity w (KAuth c) = 0).
+  /\ (forall i, lookup_bind i (w_bind w) = None -> conn_identity w (KConn i) = 0).
 Proof. exact unauthenticated_kinds. Qed.
 Print Assumptions C11_unauthenticated_classes.
 
@@ -78,17 +79,84 @@ Proof. exact party_only_objects. Qed.
 Print Assumptions C11_party_only_codes_domains.
 
 (* reaching another client: a packet is written to client t's control connection only if the connection's identity a is
-   non-zero and owns a mapping (listen = a, target = t) — or it is a C2C notification stamped with a itself; and the only
-   control connection a command can take down is the sender's own. *)
+   non-zero and owns a mapping (listen = a, target = t) — or it is a C2C notification stamped with a itself; the only
+   control connection a command can take down is the sender's own, and no command makes a client reachable or binds a
+   connection to an identity (only the registry events of a handshake do). *)
 Theorem C11_reach_only_own_target :
   forall (w : world) (k : connkind) (cl : claim) (c : cmd),
   let a := conn_identity w k in let r := exec (current_table ++ [aux_row_current]) w k cl c in
   (forall t ty s, In (t, ty, s) (res_deliv r) ->
      a <> 0 /\ t <> a /\ ((ty = Model.Commands.C_NotifyClient /\ s = a) \/
                           exists m, In m (w_maps w) /\ m_listen m = a /\ m_target m = t)) /\
-  (forall x, In x (w_online w) -> ~ In x (w_online (res_world r)) -> x = a).
+  (forall x, In x (w_online w) -> ~ In x (w_online (res_world r)) -> x = a) /\
+  (forall x, In x (w_online (res_world r)) -> In x (w_online w)) /\
+  (forall p, In p (w_bind (res_world r)) -> In p (w_bind w)).
 Proof. exact reach_only_notify. Qed.
 Print Assumptions C11_reach_only_own_target.
+
+(* ---- histories on one long-lived session/executor ------------------------------------------------------------
+   A history interleaves commands with registry events (a connection re-authenticates as another client; a connection
+   leaves the registry).  The identity of a connection is a function of the registry state AT THAT TIME. *)
+
+(* identity follows the registry, not the connection's past *)
+Theorem C11_identity_follows_registry :
+  forall w i c,
+  conn_identity (apply_event (EvReauth i c) w) (KConn i) = c /\ conn_identity (apply_event (EvRemove i) w) (KConn i) = 0.
+Proof. exact identity_follows_registry. Qed.
+Print Assumptions C11_identity_follows_registry.
+
+(* the result of the command dispatched after ANY prefix hs1 is exec against the world the prefix produced *)
+Theorem C11_history_dispatch :
+  forall tbl w hs1 k cl c hs2,
+  let w1 := world_after tbl w hs1 in
+  fst (run_history tbl w (hs1 ++ HCmd k cl c :: hs2)) =
+  fst (run_history tbl w hs1) ++ exec tbl w1 k cl c :: fst (run_history tbl (res_world (exec tbl w1 k cl c)) hs2).
+Proof. exact history_dispatch. Qed.
+Print Assumptions C11_history_dispatch.
+
+(* identity_from_connection over histories: forged identity fields anywhere in a history change neither any result nor
+   the final world *)
+Theorem C11_history_identity_from_connection :
+  forall (hs : list hstep) (w : world),
+  run_history (current_table ++ [aux_row_current]) w hs = run_history (current_table ++ [aux_row_current]) w (erase_claims hs).
+Proof. exact history_claims_irrelevant. Qed.
+Print Assumptions C11_history_identity_from_connection.
+
+(* every command of every history (any prefix of commands and identity changes, from a well-formed world) is judged by
+   the identity a := the registry's binding of its connection at dispatch: claims irrelevant; a = 0 => inert; objects
+   changed / disclosed belong to a; packets reach only a's own targets — whatever the connection was bound to before *)
+Theorem C11_history_step_uses_current_identity :
+  forall w hs1 k cl c, wf_world w -> history_ok hs1 ->
+  let tbl := current_table ++ [aux_row_current] in
+  let w1 := world_after tbl w hs1 in let a := conn_identity w1 k in let r := exec tbl w1 k cl c in
+  (forall cl', exec tbl w1 k cl' c = r) /\
+  (a = 0 -> inert w1 r) /\
+  objects_ok a w1 r /\ reach_ok a w1 r /\
+  (forall m, In m (w_maps w1) -> ~ In m (w_maps (res_world r)) -> partyP a m) /\
+  (forall m, In m (w_maps (res_world r)) -> ~ In m (w_maps w1) -> partyP a m) /\
+  (forall i, In i (res_dm r) -> exists m, In m (w_maps (res_world r)) /\ m_id m = i /\ partyP a m).
+Proof. exact history_step. Qed.
+Print Assumptions C11_history_step_uses_current_identity.
+
+(* the invariant used above is maintained along every history *)
+Theorem C11_history_preserves_wf :
+  forall tbl, sound_table tbl = true -> forall hs w, history_ok hs -> wf_world w -> wf_world (world_after tbl w hs).
+Proof. exact history_preserves_wf. Qed.
+Print Assumptions C11_history_preserves_wf.
+
+(* an executor that caches the first identity it resolved for a connection id (a seeded breaking change) is refuted:
+   connection #1 lists its domains as client 1, re-authenticates as client 4, and deletes client 1's domain;
+   removed from the registry instead, it still notifies client 2 stamped as client 1 *)
+Theorem C11_caching_executor_refuted :
+  (conn_identity (world_after current_table w_demo [HCmd (KConn 1) 0 (c_demo 87 None None); HEv (EvReauth 1 4)]) (KConn 1) = 4
+   /\ w_doms (snd (run_history_memo current_table [] w_demo h_stale)) = []
+   /\ w_doms (snd (run_history current_table w_demo h_stale)) = w_doms w_demo
+   /\ history_ok h_stale) /\
+  (let hs := [HCmd (KConn 1) 0 (c_demo 87 None None); HEv (EvRemove 1); HCmd (KConn 1) 0 (c_demo 102 None (Some 2))] in
+   map res_deliv (fst (run_history_memo (current_table ++ [aux_row_current]) [] w_demo hs)) = [[]; [(2, Model.Commands.C_NotifyClient, 1)]]
+   /\ map res_deliv (fst (run_history (current_table ++ [aux_row_current]) w_demo hs)) = [[]; []]).
+Proof. exact (conj memo_executor_refuted memo_executor_notify_refuted). Qed.
+Print Assumptions C11_caching_executor_refuted.
 
 (* the three properties hold for ANY dispatch table whose rows carry the columns their effect class requires
    (row_sound: identity from the connection, auth gate, party relation) — the table is data, the check is boolean *)
@@ -152,15 +220,15 @@ Print Assumptions C11_pinned_notify_refuted.
    unauthenticated get nothing *)
 Theorem C11_premises_satisfiable :
   wf_world w_demo /\ sound_table current_table = true
-  /\ conn_identity w_demo (KAuth 1) = 1 /\ conn_identity w_demo KPending = 0
-  /\ w_maps (res_world (exec current_table w_demo (KAuth 1) 0 (c_demo 76 (Some 0) None))) = tl (w_maps w_demo)
-  /\ map m_sent (w_maps (res_world (exec current_table w_demo (KAuth 2) 0 (c_demo 110 (Some 0) None)))) = [1000000; 0]
-  /\ res_deliv (exec current_table w_demo (KAuth 1) 0 (c_demo 90 (Some 0) None)) = [(2, 35, 0)]
-  /\ res_deliv (exec current_table w_demo (KAuth 1) 0 (c_demo 120 None (Some 2))) = [(2, 120, 0)]
-  /\ res_deliv (exec current_table w_demo (KAuth 1) 0 (c_demo 121 None None)) = [(2, 121, 0)]
-  /\ exec current_table w_demo (KAuth 3) 1 (c_demo 76 (Some 0) None) = mk false w_demo
-  /\ exec current_table w_demo (KAuth 3) 1 (c_demo 110 (Some 0) None) = mk false w_demo
-  /\ exec current_table w_demo (KAuth 3) 1 (c_demo 120 None (Some 2)) = mk true w_demo
+  /\ conn_identity w_demo (KConn 1) = 1 /\ conn_identity w_demo KPending = 0
+  /\ w_maps (res_world (exec current_table w_demo (KConn 1) 0 (c_demo 76 (Some 0) None))) = tl (w_maps w_demo)
+  /\ map m_sent (w_maps (res_world (exec current_table w_demo (KConn 2) 0 (c_demo 110 (Some 0) None)))) = [1000000; 0]
+  /\ res_deliv (exec current_table w_demo (KConn 1) 0 (c_demo 90 (Some 0) None)) = [(2, 35, 0)]
+  /\ res_deliv (exec current_table w_demo (KConn 1) 0 (c_demo 120 None (Some 2))) = [(2, 120, 0)]
+  /\ res_deliv (exec current_table w_demo (KConn 1) 0 (c_demo 121 None None)) = [(2, 121, 0)]
+  /\ exec current_table w_demo (KConn 3) 1 (c_demo 76 (Some 0) None) = mk false w_demo
+  /\ exec current_table w_demo (KConn 3) 1 (c_demo 110 (Some 0) None) = mk false w_demo
+  /\ exec current_table w_demo (KConn 3) 1 (c_demo 120 None (Some 2)) = mk true w_demo
   /\ exec current_table w_demo KUnknown 1 (c_demo 90 (Some 1) None) = mk false w_demo.
 Proof. exact premises_satisfiable. Qed.
 Print Assumptions C11_premises_satisfiable.
